@@ -3,7 +3,7 @@
 (* Trace validation for Router.tla.  Each line of TRACE_FILE is one        *)
 (* execution of REAL NetworkServiceAccessPoint routers and stations on      *)
 (* vlan.Networks recorded by harness/routerrig.py:                          *)
-(*   {"tid":n, "tree":bool, "livelock":bool, "topo":{nodes, lans},          *)
+(*   {"tid":n, "tree":bool, "livelock":bool, "nodes":[..], "lans":[..],     *)
 (*    "cache0":[per node [[snet,dnet,mac]..]], "pend0":[per node [..]],     *)
 (*    "evs":[{"n":"Send"|"Rx", node, ai, l, i, f, k, dnet, dmac, hops, re,   *)
 (*            tx, cache, pend, up, oth, exc}]}                              *)
@@ -21,7 +21,7 @@
 EXTENDS Router, Json, IOUtils, TLCExt
 
 Traces == ndJsonDeserialize(IOEnv.TRACE_FILE)
-TraceTopos == [k \in 1..Len(Traces) |-> Traces[k].topo]
+TraceTopos == Traces          \* a trace record carries the topology fields (nodes, lans) itself
 VARIABLES pos, rej, viol
 tvars == <<pos, rej, viol>>
 TR == Traces[ti]
